@@ -245,7 +245,7 @@ run_cmd do
         from concurrent.futures import ThreadPoolExecutor
         inc = ['-I' + os.path.join(REPO, 'include'), '-I' + os.path.join(REPO, 'src'),
                '-I' + os.path.join(REPO, 'nl-writer2', 'include'), '-I' + os.path.join(VERIF, 'harness')] + ['-I' + i for i in extra_inc]
-        defs = ['-DMP_DATE=20240320', '-DMP_SYSINFO="Linux x86_64"', '-DMP_USE_ATOMIC', '-DMP_USE_HASH', '-DMP_USE_UNIQUE_PTR', '-DAMPL_MP_VERIF']
+        defs = ['-DNDEBUG', '-DMP_DATE=20240320', '-DMP_SYSINFO="Linux x86_64"', '-DMP_USE_ATOMIC', '-DMP_USE_HASH', '-DMP_USE_UNIQUE_PTR', '-DAMPL_MP_VERIF']
         base = [cxx, '-std=' + std, '-w'] + defs + list(flags) + inc
         odir = os.path.join(BUILD, 'obj')
         os.makedirs(odir, exist_ok=True)
